@@ -160,6 +160,13 @@ def gen_world(tape, tier):
     ref_alt["depth"] = np.exp2(ref_alt["log2"].to_numpy())
     ref_alt["spread"] = rng.uniform(0.02, 0.5, size=n_u)
     ref_alt["gc"] = rng.uniform(0.32, 0.68, size=n_u)
+    # a reference in which every bin passes fix's bad-bin mask (so that "keep the good bins"
+    # keeps them all)
+    ref_clean = ref.copy()
+    ref_clean["log2"] = np.where(is_t, 5.0, 0.5) + rng.normal(0, 0.1, size=n_u)
+    ref_clean["depth"] = np.exp2(ref_clean["log2"].to_numpy())
+    ref_clean["gc"] = rng.uniform(0.35, 0.65, size=n_u)
+    ref_clean["spread"] = rng.uniform(0.02, 0.4, size=n_u)
     # a second sample over the same bins (deeper, other noise)
     tcov_b = coverage(tb, 6.0, 0.2)
     acov_b = coverage(ab, 1.5, 0.3)
@@ -273,6 +280,7 @@ def gen_world(tape, tier):
         "ref": CNA(ref, {"sample_id": "reference"}),
         "ref_nomask": CNA(ref_nomask, {"sample_id": "reference"}),
         "ref_alt": CNA(ref_alt, {"sample_id": "reference"}),
+        "ref_clean": CNA(ref_clean, {"sample_id": "reference"}),
         "tcov_b": CNA(tcov_b, {"sample_id": "S2"}),
         "acov_b": CNA(acov_b, {"sample_id": "S2"}),
         "cnr": CNA(cnr, dict(meta)),
